@@ -270,7 +270,7 @@ def check(ctx):
     ctx.assume('TLC model checker', 'specification modules MPSMeasure, MPSTransform, MPSState, Dense, Exact',
                'canonical_form (bound by C07) is used to prepare the state for the MPS measurement functions',
                'float comparison rtol 1e-10 (final division / normalization only)')
-    ctx.exhaustive = not quick
+    ctx.exhaustive = False   # instances are a seeded sample of the case catalogue; operations on them are enumerated exhaustively
     t0 = time.time()
 
     def leaf(st):
